@@ -436,7 +436,7 @@ def _selftest() -> Iterator[str]:
         if is_normalized_path(bad):
             yield "is_normalized_path accepts %r" % bad
     for good in ("$", "$[0]", "$[10]['a']", "$['\\u000b']", "$['\\u001f']", "$['\\\\']", "$['\\'']",
-                 "$['\"']", "$['/']", "$['\x7f']", "$[' ']", "$['\U0001F600']", "$['']"):
+                 "$['\"']", "$['/']", "$['\x7f']", "$['\u2028']", "$['\U0001F600']", "$['']"):
         if not is_normalized_path(good):
             yield "is_normalized_path rejects %r" % good
 
